@@ -27,6 +27,14 @@ def short(n):
     return re.sub(r"dual::(dual|enums)(_ops::\w+)?::", "", n)
 
 
+def _noclos(k):
+    if isinstance(k, tuple):
+        if len(k) == 2 and k[0] == "closure":
+            return ("closure",)
+        return tuple(_noclos(x) for x in k)
+    return k
+
+
 def run(ck, facts, tier):
     ev = cel.Ev(facts)
     # ---------------- R18.1 conversion tables
@@ -227,6 +235,35 @@ def run(ck, facts, tier):
                         continue
                     ck.check(r3, key, cel.vkey(v) == cel.vkey(want), "Number comparison for (%s,%s) differs from the contained types' comparison: %s vs %s"
                              % (kl, kr, cel.vfmt(v)[:200], cel.vfmt(want)[:200]), where, sample=cel.vfmt(v)[:120])
+        elif ti and tys.count(NUM) == 2 and len(tys) == 2 and r.get("self_ty") == NUM:
+            # any other two-operand method of the container (abs_sub): the same table — mixed Dual/Dual2 refused, otherwise the higher kind's own method on the
+            # operands with a plain float lifted as new(f, [])
+            for kl in KINDS:
+                for kr in KINDS:
+                    key = "%s[%s,%s]" % (sname, kl, kr)
+                    try:
+                        v = ev.apply_fn(r["fn"], [number(kl, "u"), number(kr, "v")], 0)
+                    except Unsupported as e:
+                        ck.fail(r3, key, "rule could not be established (%s)" % e, where)
+                        continue
+                    if {kl, kr} == {"Dual", "Dual2"}:
+                        ck.check(r3, key, isinstance(v, Sym) and v.tag[0] == "diverges", "mixing Dual with Dual2 is computed instead of refused: %s" % cel.vfmt(v)[:200], where, sample="refused (panic!)")
+                        continue
+                    top = max(kl, kr, key=lambda k: RANK[k])
+                    try:
+                        if top == "F64":
+                            want = Poly.atom((ti.rsplit("::", 1)[-1], payload("F64", "u").key(), payload("F64", "v").key()))   # cel's atom for a two-float method
+                        else:
+                            num = D1 if top == "Dual" else D2
+                            lift = lambda k, n: payload(k, n) if k != "F64" else Rec(num, dict({"real": Poly.atom(n), "dual": Poly({}, 1), "vars": Sym("novars")}, **({"dual2": Poly({}, 2)} if top == "Dual2" else {})))
+                            fn_ = next(rr["fn"] for rr in facts.all_fns() if rr.get("trait_item") == ti and rr.get("self_ty") == num)
+                            want = cel.Ev(facts).apply_fn(fn_, [lift(kl, "u"), lift(kr, "v")], 0)
+                    except (Unsupported, StopIteration) as e_:
+                        ck.fail(r3, key, "the contained method could not be evaluated (%s)" % e_, where)
+                        continue
+                    ok = isinstance(v, Sym) and v.tag[:2] == ("ctor", top) and len(v.tag) == 3 and _noclos(cel.vkey(v.tag[2])) == _noclos(cel.vkey(want))
+                    ck.check(r3, key, ok, "Number::%s for (%s,%s) is not %s(lhs.%s(rhs)) by the contained method: %s" % (ti.rsplit("::", 1)[-1], kl, kr, top, ti.rsplit("::", 1)[-1], cel.vfmt(v)[:300]), where,
+                             sample="%s(%s)" % (top, cel.vfmt(want)[:120]))
     from rules import pywrap
     pywrap.run(ck, facts, tier)
     ck.not_decided += ["nothing dynamic is claimed; refusal is by panic! (divergence), as the statement's 'refused rather than computed'"]
